@@ -101,11 +101,11 @@ def add_constructor_contracts(world, marshal_assumed=True):
     contract(world, 'txdbus.message.MethodReturnMessage.__init__',
              {'self': Ref('MethodReturnMessage'), 'reply_serial': INT, 'body': OPAQUE,
               'destination': Opt(STR), 'signature': Opt(STR)},
-             requires=fresh_msg, ensures=names_valid, modifies=mods, raises=anyexc, may_raise_any=True)
+             requires=fresh_msg, ensures=both(names_valid, fields_set('reply_serial', 'destination', 'signature')), modifies=mods, raises=anyexc, may_raise_any=True)
     contract(world, 'txdbus.message.ErrorMessage.__init__',
              {'self': Ref('ErrorMessage'), 'error_name': STR, 'reply_serial': INT, 'destination': Opt(STR),
               'signature': Opt(STR), 'body': OPAQUE, 'sender': Opt(STR)},
-             requires=fresh_msg, ensures=names_valid, modifies=mods, raises=anyexc, may_raise_any=True)
+             requires=fresh_msg, ensures=both(names_valid, fields_set('error_name', 'reply_serial', 'destination', 'signature')), modifies=mods, raises=anyexc, may_raise_any=True)
     contract(world, 'txdbus.message.SignalMessage.__init__',
              {'self': Ref('SignalMessage'), 'path': STR, 'member': STR, 'interface': STR,
               'destination': Opt(STR), 'signature': Opt(STR), 'body': OPAQUE},
